@@ -277,7 +277,9 @@ AddressesInstance(a, req, it) ==
     IF it.op = "SetAttribute" THEN TRUE
     ELSE IF it.op = "ModifyAttribute" THEN
         IF req.ver >= 20 THEN
-            (p.new.name \in ListAttrs => p.hascur /\ InstIndex(o, u, p.new.name, p.cur.v) >= 0)
+            \* the current attribute, when given, is an instance of the attribute that is written
+            /\ (p.hascur => p.cur.name = p.new.name)
+            /\ (p.new.name \in ListAttrs => p.hascur /\ InstIndex(o, u, p.new.name, p.cur.v) >= 0)
         ELSE (p.attr.name \in ListAttrs =>
                 LET i == IF p.attr.idx = -1 THEN 0 ELSE p.attr.idx IN i >= 0 /\ i < InstCount(o, p.attr.name))
     ELSE IF req.ver >= 20 THEN
